@@ -1,6 +1,6 @@
 //! Construction of the combinator under test ("root") for every family x container.
 
-use crate::leaf::{harvest_out, Harvest, Out, PlainFut, SimFut, SimStream, Val};
+use crate::leaf::{harvest_out, Harvest, Out, PlainFut, SimFut, SimStream, UnitStream, Val};
 use crate::world::{Family, NodeId, Res};
 use futures_concurrency::future::{FutureExt as _, Join, Race, RaceOk, TryJoin};
 use futures_concurrency::stream::{Chain, Merge, StreamExt as _, Zip};
@@ -136,6 +136,9 @@ fn pf(n: NodeId) -> PlainFut<Val> {
 fn ptf(n: NodeId) -> PlainFut<Result<Val, Val>> {
     PlainFut::new(n)
 }
+fn ust(n: NodeId) -> UnitStream {
+    UnitStream::new(n)
+}
 fn st(n: NodeId) -> SimStream {
     SimStream::new(n)
 }
@@ -212,6 +215,20 @@ pub fn build_flat(fam: Family, cont: Cont, k: &[NodeId], plain: bool) -> Box<dyn
             (Family::RaceOk, Cont::Array) => with_array!(n, k, ptf, t => AggRoot::new(RaceOk::race_ok(t)) as Box<dyn Root>),
             #[cfg(not(feature = "cfg-nostd"))]
             (Family::RaceOk, Cont::Vec) => AggRoot::new(RaceOk::race_ok(k.iter().map(|&i| ptf(i)).collect::<Vec<_>>())),
+            // streams of zero-sized items
+            (Family::Merge, Cont::Tuple) if n == 0 => StreamRoot::new(Merge::merge(())),
+            (Family::Merge, Cont::Tuple) => with_tuple!(n, k, ust, t => StreamRoot::new(Merge::merge(t)) as Box<dyn Root>),
+            (Family::Merge, Cont::Array) => with_array!(n, k, ust, t => StreamRoot::new(Merge::merge(t)) as Box<dyn Root>),
+            #[cfg(not(feature = "cfg-nostd"))]
+            (Family::Merge, Cont::Vec) => StreamRoot::new(Merge::merge(k.iter().map(|&i| ust(i)).collect::<Vec<_>>())),
+            (Family::Zip, Cont::Tuple) => with_tuple!(n, k, ust, t => StreamRoot::new(Zip::zip(t)) as Box<dyn Root>),
+            (Family::Zip, Cont::Array) => with_array!(n, k, ust, t => StreamRoot::new(Zip::zip(t)) as Box<dyn Root>),
+            #[cfg(not(feature = "cfg-nostd"))]
+            (Family::Zip, Cont::Vec) => StreamRoot::new(Zip::zip(k.iter().map(|&i| ust(i)).collect::<Vec<_>>())),
+            (Family::Chain, Cont::Tuple) => with_tuple!(n, k, ust, t => StreamRoot::new(Chain::chain(t)) as Box<dyn Root>),
+            (Family::Chain, Cont::Array) => with_array!(n, k, ust, t => StreamRoot::new(Chain::chain(t)) as Box<dyn Root>),
+            #[cfg(not(feature = "cfg-nostd"))]
+            (Family::Chain, Cont::Vec) => StreamRoot::new(Chain::chain(k.iter().map(|&i| ust(i)).collect::<Vec<_>>())),
             (fam, cont) => panic!("harness: no plain-handle builder for {:?} x {:?} (n={})", fam, cont, n),
         };
     }
